@@ -20,7 +20,7 @@ func init() {
 	Register("C03", &Info{
 		Run:   runC03,
 		Quick: 7200, Thor: 240000,
-		Rule: "a world = one predefined parrot (all of them by run index) x server-name shape (legal host name, empty, IP literal, trailing dot, long) x one real connection (plain, HelloRetryRequest-forcing, optionally the second connection of a resumption history); the hello from the wire is compared with UTLSIdToSpec(id) by the harness's own decoders: legacy_version = min(spec max, TLS 1.2), cipher suites and compression equal (GREASE at the spec's positions), extension type sequence equal (shuffling Chrome parrots: equal multiset with GREASE, padding and pre_shared_key at their spec positions), every extension body equal to the spec's fields, modulo the listed per-connection material; presence rules: server_name absent iff the configured name is not a legal host_name, padding per policy, pre_shared_key absent iff no session is offered and OmitEmptyPsk is set; non-trivial = predefined parrot hello on the wire; distinct = (parrot, extension permutation, server-name shape)",
+		Rule: "a world = one predefined parrot (all of them by run index) x server-name shape (legal host name, empty, IP literal, trailing dot, long) x one real connection (plain, HelloRetryRequest-forcing, optionally the second connection of a resumption history; in 30% of the worlds preceded by explicit BuildHandshakeStateWithoutSession and/or BuildHandshakeState calls); the hello from the wire is compared with UTLSIdToSpec(id) by the harness's own decoders: legacy_version = min(spec max, TLS 1.2), cipher suites and compression equal (GREASE at the spec's positions), extension type sequence equal (shuffling Chrome parrots: equal multiset with GREASE, padding and pre_shared_key at their spec positions), every extension body equal to the spec's fields, modulo the listed per-connection material; presence rules: server_name absent iff the configured name is not a legal host_name, padding per policy, pre_shared_key absent iff no session is offered and OmitEmptyPsk is set; non-trivial = predefined parrot hello on the wire; distinct = (parrot, extension permutation, server-name shape)",
 		Assumptions: []string{"the parrot specs returned by UTLSIdToSpec are the definition of the expected shape (inherent in the property); the mapping from spec extension types to wire extension numbers and the body encodings are harness tables from the RFCs",
 			"no schedule is involved (DESIGN 0)"},
 		Real: []string{"utls client from /repo", "utls or std server"},
@@ -350,7 +350,11 @@ func runC03(c *Ctx) {
 		return
 	}
 	shuf := isShuffling(idi)
-	c.R.Class = fmt.Sprintf("%s sn=%q/%d hrr=%v hist=%v cfg=%d/%v/%v rf=%d", idi.Name, sn[:min(len(sn), 12)], len(sn), forceHRR, history, cfgVers, cfgExtra, sharedCfg, randFail)
+	prebuild := 0
+	if ch.Bool(30, "prebuild") {
+		prebuild = 1 + ch.Pick(3, "prebuild-kind")
+	}
+	c.R.Class = fmt.Sprintf("%s sn=%q/%d hrr=%v hist=%v cfg=%d/%v/%v rf=%d prebuild=%d", idi.Name, sn[:min(len(sn), 12)], len(sn), forceHRR, history, cfgVers, cfgExtra, sharedCfg, randFail, prebuild)
 	nconn := 1
 	if history {
 		nconn = 2
@@ -362,6 +366,21 @@ func runC03(c *Ctx) {
 		}
 		sp := &ConnSpec{Name: fmt.Sprintf("c%d", i), ID: idi.ID, CCfg: ccfg, Peer: peer, SCfg: scfg, StdCfg: stdcfg, Payload: [][]byte{[]byte("x")},
 			Setup: func(l *simnet.Link) { l.Frag = ch.Bool(30, "frag") }}
+		// the documented explicit builds before Handshake (with or without session, once or twice):
+		// the hello that goes out is still the spec's
+		if pb := prebuild; pb > 0 && randFail == 0 {
+			sp.Prep = func(u *tls.UConn) error {
+				if pb == 1 || pb == 3 {
+					if err := u.BuildHandshakeStateWithoutSession(); err != nil {
+						return err
+					}
+				}
+				if pb == 2 || pb == 3 {
+					return u.BuildHandshakeState()
+				}
+				return nil
+			}
+		}
 		if randFail > 0 {
 			// the assignable crypto/rand.Reader fails once while the hello is being built: an error
 			// is acceptable, a hello that differs from the spec is not
